@@ -1383,6 +1383,8 @@ def sc_ds_rename_axes(P):
         case('rename one axis (%s)' % tag, {'x': 'u'}, **kw)
         case('swap two axes (%s)' % tag, {'x': 'y', 'y': 'x'}, **kw)
         case('unknown axis (%s)' % tag, {'q': 'u'}, **kw)
+        case('onto a name another axis has (%s)' % tag, {'x': 'y'}, **kw)
+        case('two axes onto one new name (%s)' % tag, {'x': 'u', 'y': 'u'}, **kw)
     case('callable mapper', ast_lambda('lambda d: d + "2"'))
     case('a mapper that is neither a dict nor callable', 3)
     return out
@@ -2048,7 +2050,7 @@ SCENARIOS = {
     'dimarray.tools.is_array1d_equiv': (('C05',), sc_array1d_equiv),
     'dimarray.core.dimarraycls.DimArray.from_nested': (('C05',), sc_from_nested),
     'dimarray.dataset.Dataset.rename_keys': (('C13', 'C15'), sc_ds_rename_keys),
-    'dimarray.dataset.Dataset.rename_axes': (('C13',), sc_ds_rename_axes),
+    'dimarray.dataset.Dataset.rename_axes': (('C13', 'C05'), sc_ds_rename_axes),
     'dimarray.dataset.Dataset._binary_op': (('C14',), sc_ds_ops(None, '_binary_op')),
     'dimarray.dataset.Dataset._rbinary_op': (('C14',), sc_ds_ops(None, '_rbinary_op')),
     'dimarray.dataset.Dataset._unary_op': (('C14',), sc_ds_ops(None, '_unary_op')),
